@@ -35,10 +35,12 @@ func weightsFor(profile string) map[string]int {
 	case "C08":
 		base["batch_race"] = 6
 		base["stake"] = 5
+		base["valset_lag"] = 4
 	case "C04", "C10", "C12", "C13":
 		base["prefix_mix"] = 2
 		if profile == "C10" {
 			base["size_burst"] = 2
+			base["gov"] = 3
 		}
 		if profile == "C13" || profile == "C04" {
 			base["gov"] = 3
@@ -66,6 +68,7 @@ func weightsFor(profile string) map[string]int {
 		base["stake"] = 6
 		base["ext_deposit"] = 14
 	case "C09":
+		base["valset_lag"] = 3
 		base["stake"] = 14
 		base["block"] = 30
 	case "C18":
@@ -80,6 +83,7 @@ func weightsFor(profile string) map[string]int {
 		base["gov"] = 3
 		base["set_keys"] = 3
 	case "C16":
+		base["valset_lag"] = 3
 		base["confirm_fuzz"] = 18
 		base["sign_all"] = 6
 		base["orch_sign"] = 6
@@ -93,6 +97,7 @@ func weightsFor(profile string) map[string]int {
 		base["ext_deposit"] = 10
 		base["stake"] = 4
 	case "C06":
+		base["xchain_expire"] = 4
 		base["gov"] = 4
 		base["node_restart"] = 4
 		base["clock_jump"] = 4
@@ -619,6 +624,10 @@ func (g *Gen) Step() {
 		if g.R.Intn(8) == 0 {
 			in.V = 100 + g.R.Intn(2)
 		}
+		if g.R.Intn(4) == 0 {
+			// the same accounts and keys in another admissible spelling (upper-case bech32, other hex case)
+			in.Mut = []string{"orch_upper", "orch_upper", "val_upper", "ext_lower", "ext_upper"}[g.R.Intn(5)]
+		}
 		g.emit(in)
 	case "export_import":
 		g.emit(Intent{T: "export_import", Op: []string{"", "compare", "compare"}[g.R.Intn(3)]})
@@ -632,6 +641,10 @@ func (g *Gen) Step() {
 		}
 	case "batch_race":
 		g.batchRace()
+	case "xchain_expire":
+		g.xchainExpire()
+	case "valset_lag":
+		g.valsetLag()
 	case "gov":
 		// a proposal, yes votes of every validator, then the voting period passes
 		t := g.token()
@@ -654,6 +667,22 @@ func (g *Gen) Step() {
 			break
 		}
 		c05 := g.Profile == "C05" || g.Profile == "C05adv" || g.Profile == "C05size"
+		if ((c05 || g.Profile == "C06") && g.R.Intn(4) == 0) || (g.Profile == "C10" && g.R.Intn(2) == 0) {
+			// a listed token is re-listed with other external decimals, with its contract address in another spelling,
+			// or under another hub id while transfers of it may be pending (only where no oracle depends on the
+			// amounts such a change re-interprets: block processing must survive it and stay deterministic; for C10,
+			// renumbering only - batches are selected by chain and external id)
+			mut := []string{"decimals", "respell", "renumber"}[g.R.Intn(3)]
+			if g.Profile == "C10" {
+				mut = "renumber"
+			}
+			g.emit(Intent{T: "gov", Op: "relist", Mut: mut, V: g.R.Intn(len(w.Vals)), Pick: g.R.Intn(9)})
+			g.emit(Intent{T: "block", Dt: 5, N: 1})
+			g.emit(Intent{T: "gov", Op: "vote"})
+			g.emit(Intent{T: "block", Dt: 5, N: 1})
+			g.emit(Intent{T: "block", Dt: 25, N: 1})
+			break
+		}
 		if (c05 && g.R.Intn(2) == 0) || ((g.Profile == "C01" || g.Profile == "C04" || g.Profile == "C13" || g.Profile == "C11" || os.Getenv("MHUBSIM_DELIST") != "") && g.R.Intn(4) == 0) {
 			// a token leaves the list while transfers of it are pending (refunds to its chain can no longer be created)
 			g.emit(Intent{T: "gov", Op: "delist", V: g.R.Intn(len(w.Vals)), Pick: g.R.Intn(9)})
@@ -692,6 +721,107 @@ func (g *Gen) Step() {
 
 // batchRace drives one chain into the states the batch properties are about: several tokens with several
 // pending batches each, confirmed, then executed in an arbitrary order (newest first, a middle one, …).
+// valsetLag: the relayers are away while the bonded power moves by more than 5 % two or three times: several signer-set
+// updates are pending (and confirmed) at once and grow older than the signed-signer-sets window before anybody
+// relays them; then the relayers come back.
+func (g *Gen) valsetLag() {
+	w := g.W
+	w.St.Probe("valset-lag-scenario")
+	var tot int64
+	for _, s := range w.Cfg.Stakes {
+		tot += s
+	}
+	rounds := 2 + g.R.Intn(2)
+	for r := 0; r < rounds && !w.Stopped(); r++ {
+		v := g.R.Intn(len(w.Vals))
+		in := Intent{T: "stake", V: v}
+		if g.R.Intn(2) == 0 {
+			in.Op = "delegate"
+			a := tot/8 + 1
+			if a > 900 {
+				a = 900 // a validator account holds 1000 power units of liquid stake
+			}
+			in.Amt = strconv.FormatInt(a, 10)
+		} else {
+			in.Op = "undelegate"
+			in.Amt = strconv.FormatInt(w.Cfg.Stakes[v]/3+1, 10)
+		}
+		g.emit(in)
+		g.emit(Intent{T: "block", Dt: 5, N: 2})
+		for _, ch := range Chains {
+			for vv := range w.Vals {
+				if g.R.Intn(6) != 0 {
+					g.emit(Intent{T: "orch_sign", V: vv, Chain: ch})
+				}
+			}
+		}
+		g.emit(Intent{T: "block", Dt: 5, N: 1})
+	}
+	wait := 3
+	if w.Cfg.SignerSetWindow > 0 && w.Cfg.SignerSetWindow < 20 {
+		wait = int(w.Cfg.SignerSetWindow) + 2
+	}
+	g.emit(Intent{T: "block", Dt: 5, N: wait})
+	for k := 0; k < 3; k++ {
+		for _, ch := range Chains {
+			g.emit(Intent{T: "relay", Chain: ch, Op: "valset", Pick: g.R.Intn(3)})
+		}
+		for _, ch := range Chains {
+			for vv := range w.Vals {
+				g.emit(Intent{T: "orch_poll", V: vv, Chain: ch, N: 10})
+			}
+		}
+		g.emit(Intent{T: "block", Dt: 5, N: 1})
+	}
+}
+
+// xchainExpire: several deposits on one external chain destined for ANOTHER external chain are observed in one hub
+// block of even height; the next block (odd height: no automatic batching) comes after the outgoing-transfer
+// timeout, so all of them expire in one EndBlock and each is refunded by a new transfer towards its origin chain.
+func (g *Gen) xchainExpire() {
+	w := g.W
+	type pair struct {
+		t TokenCfg
+		d string
+	}
+	var ps []pair
+	for _, t := range w.Cfg.Tokens {
+		for _, d := range Chains {
+			if d != t.Chain && w.Cfg.Token(d, t.Denom) != nil {
+				ps = append(ps, pair{t, d})
+			}
+		}
+	}
+	if len(ps) == 0 {
+		return
+	}
+	p := ps[g.R.Intn(len(ps))]
+	w.St.Probe("xchain-expire-scenario")
+	for v := range w.Vals {
+		g.emit(Intent{T: "orch_poll", V: v, Chain: p.t.Chain, N: 10})
+	}
+	g.emit(Intent{T: "block", Dt: 5, N: 1})
+	k := 2 + g.R.Intn(5)
+	max := new(big.Int).Mul(pow10(p.t.Decimals), big.NewInt(1000))
+	for i := 0; i < k; i++ {
+		a := bigOf(g.amount(max))
+		f := new(big.Int).Quo(a, big.NewInt(int64(3+g.R.Intn(40))))
+		g.emit(Intent{T: "ext_deposit", U: (i + g.R.Intn(2)) % len(w.Users), Chain: p.t.Chain, Chain2: p.d, Denom: p.t.Denom, Amt: a.String(), Fee: f.String(), Dest: "u" + strconv.Itoa(g.R.Intn(len(w.Users)))})
+	}
+	if p.t.Chain == "minter" {
+		g.emit(Intent{T: "ext_tick", Chain: p.t.Chain, N: 1})
+	}
+	if (w.N().Height+1)%2 == 1 {
+		g.emit(Intent{T: "block", Dt: 5, N: 1})
+	}
+	for v := range w.Vals {
+		g.emit(Intent{T: "orch_poll", V: v, Chain: p.t.Chain, N: 10})
+	}
+	g.emit(Intent{T: "block", Dt: 5, N: 1})
+	g.emit(Intent{T: "block", Dt: int(w.Cfg.OutgoingTxTimeoutMs/1000) + 2, N: 1})
+	g.emit(Intent{T: "block", Dt: 5, N: 2})
+}
+
 func (g *Gen) batchRace() {
 	w := g.W
 	ch := []string{"ethereum", "bsc", "ethereum", "bsc", "minter"}[g.R.Intn(5)]
